@@ -454,6 +454,14 @@ def mgrRun (C : Crypto) (md5 : Bytes → Bytes) (cr : Cred) (st : MgrSt) : List 
 mechanisms without mutual authentication have nothing to verify -/
 def serverSignatureVerified (st : MgrSt) : Bool := mechVerified st.mech
 
+/-- what the property asks of a successful login: SCRAM — the server signature was compared equal; DIGEST-MD5 — the
+client reached step 3, which only a correct `rspauth` leads to (`digestStep`, step 2); other mechanisms have no
+server proof.  (Differs from `mechVerified`, the C++'s `serverVerified()`, exactly for DIGEST-MD5.) -/
+def serverProofSeen : MechSt → Bool
+  | .scram s => s.verified
+  | .digest s => s.step == 3
+  | _ => true
+
 def isScram (st : MgrSt) : Bool :=
   match st.mech with
   | .scram _ => true
@@ -547,9 +555,25 @@ def scramServerVerify (C : Crypto) (rec : ScramRecord) (clientFirstMsg serverFir
 def KD (md5 : Bytes → Bytes) (k s : Bytes) : Bytes := md5 (k ++ [58] ++ s)
 /-- `HEX(n)`: 32 lower-case hex digits -/
 def HEX (b : Bytes) : Bytes := toHexBytes b
-/-- `A1 = { H({ username-value, ":", realm-value, ":", passwd }), ":", nonce-value, ":", cnonce-value }` (no authzid) -/
+/-- ISO 8859-1 form of a UTF-8 string all of whose characters are below U+0100 (ASCII bytes, or a two-byte sequence
+with lead byte C2/C3); `none` for every other byte string -/
+def latin1? : Bytes → Option Bytes
+  | [] => some []
+  | [c] => if c < 128 then some [c] else none
+  | c :: d :: rest =>
+    if c < 128 then (latin1? (d :: rest)).map (c :: ·)
+    else if (c = 194 ∨ c = 195) ∧ 128 ≤ d ∧ d < 192 then (latin1? rest).map ((if c = 194 then d else d + 64) :: ·)
+    else none
+
+/-- RFC 2831 §2.1.2.1 (and the sample code of §8, `MD5_UTF8_8859_1`): with `charset=utf-8`, a user name, realm or
+password "all of whose characters are in ISO 8859-1" is converted to ISO 8859-1 before being hashed — each string on
+its own; any other string is hashed as the UTF-8 it is -/
+def digestEnc (b : Bytes) : Bytes := (latin1? b).getD b
+
+/-- `A1 = { H({ username-value, ":", realm-value, ":", passwd }), ":", nonce-value, ":", cnonce-value }` (no authzid),
+the three strings in the encoding `digestEnc` prescribes -/
 def A1 (md5 : Bytes → Bytes) (user realm pass nonce cnonce : Bytes) : Bytes :=
-  md5 (user ++ [58] ++ realm ++ [58] ++ pass) ++ [58] ++ nonce ++ [58] ++ cnonce
+  md5 (digestEnc user ++ [58] ++ digestEnc realm ++ [58] ++ digestEnc pass) ++ [58] ++ nonce ++ [58] ++ cnonce
 /-- `A2 = { "AUTHENTICATE:", digest-uri-value }` for qop=auth; for the server's `rspauth` the method is empty -/
 def A2 (method digestUri : Bytes) : Bytes := method ++ [58] ++ digestUri
 /-- `response-value = HEX(KD(HEX(H(A1)), {nonce, ":", nc, ":", cnonce, ":", qop, ":", HEX(H(A2))}))` with qop = `auth` -/
